@@ -103,6 +103,8 @@ func TestC16(t *testing.T) {
 		var catalogue []c16metric
 		fractional := rng.IntN(2) == 0
 		varyShape := rng.IntN(2) == 0
+		// a hook may write its own `hook` label: the label the operator adds names the executing hook all the same
+		ownHookLabel := rng.IntN(3) == 0
 		for i := 0; i < 3; i++ {
 			catalogue = append(catalogue, c16metric{Name: fmt.Sprintf("u_%s_%d", []string{"counter", "gauge", "histogram"}[i], c.Index%3), Kind: []string{"counter", "gauge", "histogram"}[i], Labels: []string{"a"}})
 		}
@@ -138,6 +140,10 @@ func TestC16(t *testing.T) {
 				}
 				lv := fmt.Sprintf("v%d", rng.IntN(3))
 				op.Labels["a"] = lv
+				if ownHookLabel && rng.IntN(3) == 0 {
+					op.Labels["hook"] = hooks[rng.IntN(len(hooks))]
+					classes["hook-label-written-by-the-hook"] = true
+				}
 				if m.Group == "" && m.Name == reusedName {
 					op.Labels["grp"] = "none"
 					classes["name-reused-grouped-and-ungrouped"] = true
@@ -253,10 +259,11 @@ func TestC16(t *testing.T) {
 						}
 						continue
 					}
-					labels := map[string]string{"hook": hook}
+					labels := map[string]string{}
 					for k, v := range op.Labels {
 						labels[k] = v
 					}
+					labels["hook"] = hook
 					k := c16key(op.Name, labels)
 					s := ref[k]
 					s.Group = op.Group
@@ -281,10 +288,11 @@ func TestC16(t *testing.T) {
 					if op.Group != "" {
 						continue
 					}
-					labels := map[string]string{"hook": hook}
+					labels := map[string]string{}
 					for k, v := range op.Labels {
 						labels[k] = v
 					}
+					labels["hook"] = hook
 					k := c16key(op.Name, labels)
 					s := ref[k]
 					switch {
